@@ -16,7 +16,7 @@ log=$dst/confirm.log; : > $log
 if ! git apply --check $dst/patch.diff 2>>$log; then echo "PATCH-DOES-NOT-APPLY" | tee -a $log; fi
 # demo placement
 demopath=$(grep -oE '[A-Za-z0-9_/.-]+/[A-Za-z0-9_.-]+_test\.go' $dst/demo_path.txt 2>/dev/null | head -1)
-democmd=$(grep -E 'go test|go run' $dst/demo_path.txt 2>/dev/null | grep -v '^ *cp ' | head -1 | sed 's/^[ `$]*//; s/`$//; s/^cd <[^>]*> *&& *//; s/^cd [^ ]* *&& *//')
+democmd=$(grep -E 'go test|go run' $dst/demo_path.txt 2>/dev/null | grep -v '^ *cp ' | head -1 | sed 's/^[ `$]*//; s/`$//; s/^cd <[^>]*> *&& *//; s/^cd [^ ]* *&& *//; s/^[A-Za-z ]*: *//; s/ *2>&1 *|.*$//; s/ *| *grep.*$//')
 echo "demo path: $demopath ; cmd: $democmd" >> $log
 place_demo(){ if [ -d $dst/demo ]; then mkdir -p $wt/$demopath; cp -r $dst/demo/* $wt/$demopath/; else f=$(ls $dst/*_test.go $dst/demo*.go 2>/dev/null | head -1); mkdir -p $(dirname $wt/$demopath); cp $f $wt/$demopath; fi; }
 place_demo
